@@ -436,6 +436,30 @@ class StubSftpServer:
                 size=size, perm=0o100644, uid=1, gid=1, atime=1, mtime=1)
 
         if t in (SETSTAT, FSETSTAT):
+            if t == SETSTAT:
+                path = fs.norm(r.string())
+            else:
+                ent = self.handles.get(r.string())
+                path = ent[0] if ent else None
+
+            attrs = parse_attrs_v3(r)
+
+            if path is None or path not in fs.files:
+                return status(rid, FX_NO_SUCH_FILE, b'no such file')
+
+            if 'size' in attrs:
+                # truncate or extend with zeros, as a file system does
+                data = fs.files[path]
+                n = attrs['size']
+
+                if n > 1 << 26:
+                    return status(rid, FX_FAILURE, b'too large')
+
+                if n <= len(data):
+                    del data[n:]
+                else:
+                    data.extend(bytes(n - len(data)))
+
             return status(rid, FX_OK)
 
         if t == REALPATH:
